@@ -31,7 +31,7 @@ class TableStyle:
     def get_column_alignments(self, nb_columns):  # type: (int) -> List[int]
         default_alignments = [self.default_column_alignment] * nb_columns
 
-        for i, alignment in enumerate(self.column_alignments):
+        for i, alignment in enumerate(self.column_alignments[:nb_columns]):
             default_alignments[i] = alignment
 
         return default_alignments
